@@ -32,7 +32,7 @@ REDUCERS = ["NearestTraceReducer", "CumulativeTraceReducer", "PassthroughReducer
 def gen_cases(rng, n):
     cases = []
     for i in range(n):
-        kind = ["layer", "layer", "layer", "reducer", "record", "classifier"][i % 6]
+        kind = ["layer", "layer", "reducer", "reducer", "record", "classifier"][i % 6]
         seed = rng.randrange(1 << 30)
         T = rng.randint(6, 14)
         k = rng.choice([0, 1, rng.randint(0, T), rng.randint(1, T), T])
@@ -70,10 +70,19 @@ def gen_cases(rng, n):
             cases.append(c)
         elif kind == "reducer":
             dt = rng.choice([1.0, 0.5])
-            cases.append({"kind": "reducer", "spec": {"cls": rng.choice(REDUCERS), "dt": dt,
-                                                      "duration": rng.choice([0.0, dt, 3 * dt]),
-                                                      "inplace": rng.random() < 0.5},
-                          "shape": rng.choice([[3], [2, 2]]), "T": T, "k": max(k, 1), "seed": seed, "prior": max(prior, 1)})
+            kk = max(k, 1)
+            c = {"kind": "reducer", "spec": {"cls": REDUCERS[(i // 6) % len(REDUCERS)], "dt": dt,
+                                             "duration": rng.choice([0.0, dt, 3 * dt]),
+                                             "inplace": rng.random() < 0.5},
+                 "shape": rng.choice([[3], [2, 2]]), "T": T, "k": kk, "seed": seed, "prior": rng.randint(1, 5)}
+            if c["spec"]["cls"] == "EventReducer":
+                c["spec"]["initial"] = rng.choice(["inf", "zero", "nan"])
+            r = rng.random()
+            if r < 0.3:
+                c["target_cleared"] = True
+            elif r < 0.45 and kk >= 2:
+                c["src_clear_at"] = rng.randint(1, kk - 1)     # the source itself was cleared before the checkpoint
+            cases.append(c)
         elif kind == "record":
             cases.append({"kind": "record", "N": rng.randint(1, 6), "shape": rng.choice([[2], [2, 2]]), "T": T, "k": k,
                           "seed": seed, "prior": rng.randint(0, 5), "inplace": rng.random() < 0.5})
@@ -91,7 +100,7 @@ def signature(c, r):
 
 def run(ctx):
     rng = random.Random(ctx["seed"])
-    n = 150 if ctx["tier"] == "quick" else 2000
+    n = 240 if ctx["tier"] == "quick" else 3000
     cases = gen_cases(rng, n)
     # corpus: the known finding's witness always runs
     cases.insert(0, KNOWN_PENDING_CASE)
